@@ -235,7 +235,7 @@ def c12_4(ctx: Ctx) -> RuleResult:
         child = st
         while cur is not None and cur is not h.node:
             if isinstance(cur, ast.If) and any(child is s for s in cur.body):
-                conds.append(X.at(h, cur.test))
+                conds.append(X.value_at(h, cur.test))
             child, cur = cur, parent(cur)
         flat = []
         for cnd in conds:
